@@ -143,6 +143,27 @@ func hostProxy(ctx context.Context, host, shimPath string, injectShimCode, force
 	return banner.Proxy(ctx, h, *injectBanner, *bannerHeight, *favIconURL, metricHandler)
 }
 
+// keepEndToEnd removes the given header name from the connection options
+// listed in the Connection header(s).
+func keepEndToEnd(header http.Header, name string) {
+	connections := header.Values("Connection")
+	if len(connections) == 0 {
+		return
+	}
+	header.Del("Connection")
+	for _, connection := range connections {
+		var kept []string
+		for _, option := range strings.Split(connection, ",") {
+			if !strings.EqualFold(strings.TrimSpace(option), name) {
+				kept = append(kept, option)
+			}
+		}
+		if len(kept) > 0 {
+			header.Add("Connection", strings.Join(kept, ","))
+		}
+	}
+}
+
 // forwardRequest forwards the given request from the proxy to
 // the backend server and reports the response back to the proxy.
 func forwardRequest(client *http.Client, hostProxy http.Handler, request *utils.ForwardedRequest) error {
@@ -154,6 +175,9 @@ func forwardRequest(client *http.Client, hostProxy http.Handler, request *utils.
 		// Replace (rather than add to) any value supplied by the client itself,
 		// so that the backend only ever sees the identity asserted by the proxy.
 		httpRequest.Header.Set(utils.HeaderUserID, request.User)
+		// ... and do not let the client declare it a hop-by-hop header, which
+		// would make the reverse proxy drop it again.
+		keepEndToEnd(httpRequest.Header, utils.HeaderUserID)
 	}
 	if *stripCredentials {
 		httpRequest.Header.Del(headerAuthorization)
